@@ -94,7 +94,7 @@ func e2eExec(items []e2eItem, budget time.Duration) (*e2eOut, error) {
 }
 
 func init() {
-	core.RegisterReplay("C05/e2e", func(data json.RawMessage) (bool, string, error) {
+	core.RegisterReplayThreads("C05/e2e", 1, func(data json.RawMessage) (bool, string, error) {
 		var it e2eItem
 		if err := json.Unmarshal(data, &it); err != nil {
 			return false, "", err
